@@ -576,6 +576,13 @@ func huntScenarios(r *lib.Run, rng *lib.Rand) {
 			{kind: 'P', mac: hMACs[0], delay: 20},
 			{kind: 'R', counter: 1, hk: true, src: rSrcs[0], eth: rEths[0], msg: ras[1], delay: 40},
 		},
+		{ // default router: the last CREATED entry; lifetime 0 of the default and a higher preference elsewhere do not move it
+			{kind: 'R', counter: 3, hk: true, src: rSrcs[0], eth: rEths[0], msg: mkRA(64, 0, 1800, 0, 0), delay: 20},
+			{kind: 'R', counter: 3, hk: true, src: rSrcs[1], eth: rEths[1], msg: mkRA(64, 0, 1800, 0, 0), delay: 20},
+			{kind: 'R', counter: 3, hk: true, src: rSrcs[1], eth: rEths[1], msg: mkRA(64, 0, 0, 0, 0), delay: 20},
+			{kind: 'R', counter: 3, hk: true, src: rSrcs[0], eth: rEths[0], msg: mkRA(64, 0x08, 9000, 0, 0), delay: 20},
+			{kind: 'S', mac: hMACs[0], delay: 40},
+		},
 		{ // Close with a hunted host, then an RA (ra-after-close), then another
 			{kind: 'R', counter: 3, hk: true, src: rSrcs[0], eth: rEths[0], msg: ras[1], delay: 20},
 			{kind: 'S', mac: hMACs[2], delay: 30}, {kind: 'C', delay: 20},
